@@ -23,7 +23,8 @@ Flags (exclusions by construction; all default to the full language):
                   to a small range), "grow" (memory.grow only by 0), "sqrt" (operand wrapped in abs),
                   "fdiv" (float divisor forced to |b|+1)
     no_features   set of module features left out: imports, import_globals, table, memory, start,
-                  globals, float_globals, dead_code, data, unreachable, nan_consts, snan_consts,
+                  globals, float_globals, dead_code, data, unreachable, nan_consts (any NaN constant),
+                  nan_payload_consts (NaN constants other than the canonical +qNaN), snan32_consts (f32 sNaN),
                   br_table, loop_result, export_globals, export_float_globals, inf_consts,
                   elem_imports, nan_args, dead_loops (a loop inside code that follows a br/return/...)
 """
@@ -108,30 +109,34 @@ def _const_value(draw, t, flags, arg):
             return draw(st.sampled_from(I64_POOL))
         return draw(st.integers(-(1 << 63), (1 << 63) - 1))
     nan_ok = flags.has("nan_consts") if not arg else flags.has("nan_args")
+    payload_ok = flags.has("nan_payload_consts") and not arg  # non-canonical NaN; never for arguments (JS boundary)
+    snan32_ok = flags.has("snan32_consts") and payload_ok and not arg  # f32 signalling NaN
     if t == "f32":
         if k < 6:
             return draw(st.sampled_from(F32_POOL))
         if k == 6 and nan_ok:
-            pool = F32_NAN + (F32_SNAN if flags.has("snan_consts") and not arg else [])
-            return draw(st.sampled_from(pool))
+            v = draw(st.sampled_from(F32_NAN + (F32_SNAN if snan32_ok else [])))
+            return v if payload_ok else 0x7FC00000
         v = draw(st.integers(0, 0xFFFFFFFF))
         if (v & 0x7F800000) == 0x7F800000 and v & 0x7FFFFF:  # random NaN pattern
             if not nan_ok:
                 return v & 0xFF800000
-            if not flags.has("snan_consts") or arg:
+            if not payload_ok:
+                return 0x7FC00000
+            if not snan32_ok:
                 return v | 0x00400000
         return v
     if k < 6:
         return draw(st.sampled_from(F64_POOL))
     if k == 6 and nan_ok:
-        pool = F64_NAN + (F64_SNAN if flags.has("snan_consts") and not arg else [])
-        return draw(st.sampled_from(pool))
+        v = draw(st.sampled_from(F64_NAN + (F64_SNAN if payload_ok and not arg else [])))
+        return v if payload_ok else 0x7FF8000000000000
     v = draw(st.integers(0, 0xFFFFFFFFFFFFFFFF))
     if (v & 0x7FF0000000000000) == 0x7FF0000000000000 and v & 0xFFFFFFFFFFFFF:
         if not nan_ok:
             return v & 0xFFF0000000000000
-        if not flags.has("snan_consts") or arg:
-            return v | 0x0008000000000000
+        if not payload_ok:
+            return 0x7FF8000000000000
     return v
 
 
